@@ -48,10 +48,12 @@ text = f"""## 10. Seeded changes and harmless refactorings: what the checks repo
 ### 10.1 Seeded changes (must be reported)
 
 {len(rows)} seeded changes are kept under `seeded/<name>/` (`patch.diff`, the author's demonstration, `meta.json`: which
-property, what it needs to manifest, what was run — `confirmed_by_me`). They come from four waves of fresh sub-agents
-(34 + 34 + 23 + 17 changes; each agent was given only the text of the properties — waves 1, 2 and 4: of the properties it
+property, what it needs to manifest, what was run — `confirmed_by_me`). They come from five waves of fresh sub-agents
+(34 + 34 + 23 + 17 + 12 changes; each agent was given only the text of the properties — waves 1, 2 and 4: of the properties it
 worked on; wave 3: of all 18, plus an area of the source to work in and the request to avoid the index arithmetic the
-earlier waves had concentrated on; wave 4: with the request to hide the change in less-travelled code paths — and scratch
+earlier waves had concentrated on; wave 4: with the request to hide the change in less-travelled code paths; wave 5 (`*-w5-*`): all 18 plus one of four
+themes — worker present vs absent, teardown and drop order, multi-item operations on a wrapped window, the async layer —
+and scratch
 git worktrees under /tmp, nothing from /verif, with the stated purpose of testing these
 checks and the request that the change compile, keep the pinned suite green and need something specific to manifest) and from the reverse patches of the eight `fix:` commits
 (`*-regress-Dn`). Every one was confirmed by hand before it was kept: it applies to /repo's HEAD, the pinned suite stays
@@ -63,6 +65,16 @@ with `git worktree remove --force`. No permission or safety layer refused any of
 Current state: {', '.join(f'{v} {k}' for k, v in sorted(counts.items()))} (`concrete` = VIOLATION with a history / schedule /
 probe that fails on the real code; `no-failing-input-found` = VIOLATION naming only the broken theorem or correspondence;
 `MISSED` = the check stayed quiet).
+
+Wave 5 (12 changes): 10 were reported with a concrete failing history at once; `C03-w5-extract-slice-advance-before-tail`
+(the consumer's `advance` hoisted between the head copy and the tail copy of a wrapped `copy_slice`) breaks the skeleton
+fact "publish after the last slot access" and hence a C03 proof obligation, but the quick tier's schedules did not hit
+the one-slot window: `no-failing-input-found`. `C09-w5-vmem-teardown-drops-empty-slots` (the `vmem`-only branch of
+`HeapStorage::drop` hands `drop_in_place` a `*mut T`, bypassing the cell's zero test) was MISSED by C09: the ownership
+profile of C09 was never built with the `vmem` feature (the same history was run, and failed, under C17's `vmemown`
+profile, where a C09-tagged failure only counts as a broken correspondence). C09 now also runs the `vmemown` profile and
+reports the seed with the concrete history `drop P; drop C` on a zeroed heap buffer ("a destructor ran on an empty slot");
+the unchanged tree stays quiet under it.
 
 First wave and regressions:
 
